@@ -34,21 +34,27 @@ SHAPES = {"1x1": (1, 1), "2x3": (2, 3), "4x5": (4, 5), "5x4": (5, 4), "1x6": (1,
 LABELS = {2: ["red", "green"], 3: ["red", "green", "blue"]}      # deliberately not alphabetical
 
 
-def attr_value(key, kind, nch):
-    labs = LABELS.get(nch, [])
+LABEL_ORDERS = {"rg": ["red", "green"], "gb": ["green", "blue"], "br": ["blue", "red"], "ab": ["a", "b"],
+                "rgb": ["red", "green", "blue"], "grb": ["green", "red", "blue"]}
+
+
+def attr_value(key, kind, nch, labs=None):
+    labs = labs or LABELS.get(nch, [])
     if kind == "none":
         return None
+    if kind == "scalar_zero":
+        return 0.0
     if kind == "scalar":
         return {"medium_index": 1.33, "illum_wavelen": 0.66, "illum_polarization": (0.6, 0.8), "noise_sd": 0.05}[key]
-    per = {"illum_wavelen": {"red": 0.66, "green": 0.52, "blue": 0.445},
-           "noise_sd": {"red": 0.05, "green": 0.1, "blue": 0.02},
-           "illum_polarization": {"red": (1, 0), "green": (0, 1), "blue": (1, 1)}}[key]
+    per = {"illum_wavelen": {"red": 0.66, "green": 0.52, "blue": 0.445, "a": 0.7, "b": 0.5},
+           "noise_sd": {"red": 0.05, "green": 0.1, "blue": 0.02, "a": 0.03, "b": 0.07},
+           "illum_polarization": {"red": (1, 0), "green": (0, 1), "blue": (1, 1), "a": (1, 0), "b": (0.6, 0.8)}}[key]
     if kind == "per_channel_dict":
         return {l: per[l] for l in labs}
     return xr.DataArray([per[l] for l in labs], dims=["illumination"], coords={"illumination": labs})
 
 
-def make_image(im, nprng):
+def make_image(im, nprng, labels=None):
     shape = SHAPES[im["shape"]]
     nch = im["channels"]
     full = shape + ((nch,) if nch > 1 else ())
@@ -56,8 +62,9 @@ def make_image(im, nprng):
         arr = nprng.integers(0, 200 if im["dtype"] == "uint8" else 60000, size=full).astype(im["dtype"])
     else:
         arr = (nprng.normal(size=full) * 10).astype(im["dtype"])
-    extra = {"illumination": LABELS[nch]} if nch > 1 else None
-    kw = {k: attr_value(k, v, nch) for k, v in im["attrs"].items()}
+    labs = labels or LABELS.get(nch)
+    extra = {"illumination": labs} if nch > 1 else None
+    kw = {k: attr_value(k, v, nch, labs) for k, v in im["attrs"].items()}
     from holopy.core.metadata import detector_grid
     img = detector_grid(shape, (0.1, 0.25), name="holo" if im["named"] else None, extra_dims=extra)
     img = img.astype(arr.dtype)
@@ -236,6 +243,58 @@ def run(ctx):
             else:
                 ctx.trace_ok()
             os.remove(path)
+        # ---- colour TIFF: two- and three-channel images, every channel layout, per-channel metadata
+        g = ctx.tlc_graph("ImageIO", "ImageIO_tiffcolour.cfg")
+        edges = [e for e in g.edges if e[1] == "SaveLoadTiff"]
+        if quick:
+            edges = rng.sample(edges, 70)
+        seen_layouts = set()
+        for n, e in enumerate(edges):
+            st = g.states[e[0]]["img"]
+            im, lab = st["base"], st["labels"]
+            labs = LABEL_ORDERS[lab]
+            seen_layouts.add(lab)
+            ctx.case(("tiffcolour", str(sorted(im.items())), lab))
+            try:
+                img, arr = make_image(im, nprng, labels=labs)
+                path = os.path.join(tmp, "c_%d.tif" % n)
+                with warnings.catch_warnings():
+                    warnings.simplefilter("ignore")
+                    hp.save_image(path, img, depth=8)
+                    back = hp.load(path)
+            except Exception as ex:
+                ctx.violation("tiffcolour/exception/%s" % lab, {"img": im, "labels": labs, "exc": repr(ex)[:300]})
+                continue
+            bad = None
+            a_all = np.asarray(img.values, dtype=float)
+            lo, hi = a_all.min(), a_all.max()
+            step = (hi - lo) / 255.0 if hi > lo else 0.0
+            if "illumination" not in back.dims or len(back.illumination) != len(labs):
+                bad = ("channels", {"loaded": list(map(str, back.illumination.values)) if "illumination" in back.dims else None})
+            else:
+                for k, l in enumerate(labs):
+                    a = np.asarray(img.sel(illumination=l).values, dtype=float).squeeze()
+                    # colour names come back under their own label (in R, G, B order); others by position
+                    b = back.sel(illumination=l) if lab != "ab" else back.isel(illumination=k)
+                    b = np.asarray(b.values, dtype=float).squeeze()
+                    if a.shape != b.shape or (hi > lo and not np.max(np.abs(a - b)) <= 0.5 * step * (1 + 1e-6) + 1e-9 * max(1, abs(hi))):
+                        bad = ("quantisation", {"channel": l, "max_err": float(np.max(np.abs(a - b))) if a.shape == b.shape else None,
+                                                "half_step": 0.5 * step})
+                        break
+            if bad is None:
+                ok, why = attrs_equal(dict(img.attrs), dict(back.attrs))
+                sp_a, sp_b = np.asarray(get_spacing(img)), np.asarray(get_spacing(back))
+                if not ok:
+                    bad = ("attrs", {"why": why})
+                elif not np.allclose(sp_a, sp_b, rtol=1e-12):
+                    bad = ("spacing", {"impl": sp_b.tolist(), "orig": sp_a.tolist()})
+            if bad:
+                ctx.violation("tiffcolour/%s/%s" % (bad[0], lab), dict(bad[1], img=im, labels=labs))
+            else:
+                ctx.trace_ok()
+            os.remove(path)
+        ctx.notes["colour_layouts_replayed"] = sorted(seen_layouts)
+        ctx.uncovered("16-bit colour TIFF: the imaging library cannot write 16-bit RGB; colour export is replayed at depth 8")
         ctx.sample({"mode": "tiff", "image": str(im), "depth": depth, "usable_bits": bits})
 
         # ------------------------ update_metadata ---------------------------------------------------
